@@ -474,6 +474,8 @@ impl GraphWorld {
                 let own_token: Rc<Cell<Option<SubscriptionToken>>> = Rc::new(Cell::new(None));
                 let own_token_ = own_token.clone();
                 let self_unsub = self.prog.alpha.handler_self_unsub;
+                let self_disallow = self.prog.alpha.handler_self_disallow;
+                let my_slot = *s as usize;
                 let weak_state = self.state.weak();
                 // a handler may own a Var handle (it is not an observer)
                 let write_to: Option<Var<Val>> = self.prog.alpha.handler_sets_var.and_then(|i| self.vars.get(i as usize).cloned().flatten());
@@ -493,6 +495,17 @@ impl GraphWorld {
                     if self_unsub && is_changed {
                         if let Some(t) = own_token_.get() {
                             weak_state.unsubscribe(t);
+                        }
+                    }
+                    if self_disallow && is_changed {
+                        // the handler does not own an observer: it reaches its own one through the harness table
+                        let table = OBS.with(|o| o.borrow().as_ref().and_then(|w| w.upgrade()));
+                        if let Some(table) = table {
+                            if let Ok(t) = table.try_borrow() {
+                                if let Some(h) = t.slots.get(my_slot).and_then(|hs| hs.first()) {
+                                    h.disallow_future_use();
+                                }
+                            }
                         }
                     }
                     IN_HANDLER.with(|c| c.set(None));
@@ -1213,7 +1226,13 @@ impl World for GraphWorld {
             }
         };
         let after = self.state.stats();
-        let (model_api, round) = self.exec_model(a);
+        let (model_api, mut round) = self.exec_model(a);
+        if self.prog.alpha.handler_self_disallow {
+            if let Some(out) = round.as_mut() {
+                let asc = self.cfg.handler_order.unwrap_or(true);
+                self.model.apply_self_disallow(out, asc);
+            }
+        }
         if check && real_api != model_api && self.cfg.is_armed("C10") {
             vs.push(v("C10", "C10.api_result", format!("{model_api:?}"), format!("{a:?} returned {real_api:?}, lifecycle model says {model_api:?}")));
         }
@@ -1258,6 +1277,9 @@ impl World for GraphWorld {
                 let sm = &mut self.model.subs[*s as usize];
                 sm.got_any = true;
                 sm.got_invalidated = true;
+            }
+            for slot in out.self_disallowed.iter() {
+                self.model.kill_observer(*slot);
             }
             for ev in log.iter() {
                 if let Ev::Handler { sub, update } = ev {
